@@ -26,6 +26,26 @@ theorem no_race_under_any_interleaving (c₀ : Cfg) (h0 : ∀ i, c₀.held i = n
 /-- (2) every extracted path of every non-drawing method of `*T` respects the discipline -/
 theorem traces_well_locked : ∀ t ∈ Rapid.Generated.tTraces, WLF none t.2 = true := by decide
 
+/-- position-independent lookup of a field id by its name in the generated table -/
+def fieldId (name : String) : Option Nat :=
+  (Rapid.Generated.fieldNames.find? (·.2 == name)).map (·.1)
+
+/-- inside one write section: every write of field `f` is preceded by a read of `f` in the
+    same section (check-then-act happens atomically) -/
+def checkedWrites (f : Nat) : Bool → Bool → List Ev → Bool
+  | _, _, [] => true
+  | _, _, .acq .W :: es => checkedWrites f true false es
+  | _, _, .acq .R :: es => checkedWrites f false false es
+  | _, _, .rel _ :: es => checkedWrites f false false es
+  | inW, seen, .read g :: es => checkedWrites f inW (seen || (inW && g == f)) es
+  | inW, seen, .write g :: es => (g != f || (inW && seen)) && checkedWrites f inW seen es
+
+/-- `T.Context` creates the context only after re-checking, under the write lock, that no other
+    goroutine has created one meanwhile: no two goroutines can each install a context -/
+theorem context_created_once :
+    ∀ t ∈ Rapid.Generated.tTraces, t.1 = "T.Context" →
+      ∀ f, fieldId "T.ctx" = some f → checkedWrites f false false t.2 = true := by decide
+
 /-- the extractor understood every statement of these methods -/
 theorem extractor_complete : Rapid.Generated.extractorProblems = [] := by decide
 
